@@ -73,6 +73,12 @@ func vVariant(k int, name string) Object {
 		}
 		h := []geometry.Point{{X: 0.25, Y: 0.25}, {X: 0.75, Y: 0.25}, {X: 0.75, Y: 0.75}, {X: 0.25, Y: 0.75}, {X: 0.25, Y: 0.25}}
 		return NewPolygon(geometry.NewPoly(L, [][]geometry.Point{h}, rtOpts))
+	case 32: // concrete 16-point convex-ish polygon (the size from which several ring shortcuts apply), quadtree index
+		r16 := []geometry.Point{{X: 2, Y: 0}, {X: 3, Y: 0}, {X: 4, Y: 0}, {X: 5, Y: 0}, {X: 6, Y: 1}, {X: 6, Y: 2}, {X: 6, Y: 3}, {X: 5, Y: 4},
+			{X: 4, Y: 4}, {X: 3, Y: 4}, {X: 2, Y: 4}, {X: 1, Y: 4}, {X: 0, Y: 3}, {X: 0, Y: 2}, {X: 0, Y: 1}, {X: 1, Y: 0}, {X: 2, Y: 0}}
+		return NewPolygon(geometry.NewPoly(r16, nil, idxOpts))
+	case 33: // a rectangle with symbolic corners
+		return NewRect(geometry.Segment{A: p[0], B: p[1]}.Rect())
 	case 30: // one-point line with an R-tree index requested (an index with no segments)
 		return NewLineString(geometry.NewLine([]geometry.Point{p[0]}, rtOpts))
 	case 31: // polygon with a one-point hole and a two-point hole, R-tree index requested
